@@ -149,6 +149,8 @@ class CachePartition:
             slot_data = bytes([0xBF])
             self.first_slot = False
 
+        if len(uri) == 0:
+            raise ValueError("Empty URI is reserved for padding entries!")
         if uri in self.uris:
             raise ValueError(f"URI {uri} already exists in the cache!")
         self.uris.append(uri)
